@@ -345,6 +345,42 @@ def u_c10b():
     return u.finish()
 
 
+def u_c09c():
+    """Ties and class boundaries: two events at one address with EQUAL created_at (replaceable and parameterized; the ids
+    decide nothing in the store's rules, and both submission orders occur in the edge cover), same-d pairs of kinds on both
+    sides of every class boundary (9999 / 10000, 19999 / 20000 is ephemeral, 39999 / 40000)."""
+    u = Universe("c09c", nauthors=1, nabsent=1)
+    A = 1
+    u.add(A, 10000, 50, [], clen=5)                       # 1 replaceable
+    u.add(A, 10000, 50, [], clen=6)                       # 2 same address, same created_at
+    u.add(A, 30000, 50, [["d", "t"]], clen=7)             # 3 parameterized
+    u.add(A, 30000, 50, [["d", "t"]], clen=8)             # 4 same address, same created_at
+    u.add(A, 40000, 10, [["d", "x"]], clen=9)             # 5 regular kind just above the parameterized range
+    u.add(A, 40000, 20, [["d", "x"]], clen=10)            # 6 same d, newer: both stay
+    u.add(A, 39999, 15, [["d", "x"]], clen=11)            # 7 last parameterized kind, same d
+    u.add(A, 9999, 5, [], clen=12)                        # 8 regular kind just below the replaceable range
+    u.add(A, 9999, 6, [], clen=13)                        # 9 newer: both stay
+    u.add(A, 19999, 7, [], clen=14)                       # 10 last replaceable kind
+    u.add(A, 19999, 8, [], clen=15)                       # 11 displaces 10
+    return u.finish()
+
+
+def u_c10c():
+    """Deletion requests whose a tags name kinds that have no addresses (regular, just above the parameterized range):
+    the marker is recorded, no event is covered."""
+    u = Universe("c10c", nauthors=2, nabsent=1)
+    A, B = 1, 2
+    u.add(A, 1, 10, [], clen=5)                                        # 1 A's note
+    u.add(A, 1, 12, [["d", "note"]], clen=6)                           # 2 A's note carrying a d tag
+    u.add(A, 5, 20, [["a", ("addr", 1, A, "")]], clen=0)               # 3 A names "1:A:" - covers nothing
+    u.add(A, 5, 21, [["a", ("addr", 1, A, "note")]], clen=0)           # 4 A names "1:A:note" - covers nothing
+    u.add(B, 1, 11, [], clen=7)                                        # 5 B's note
+    u.add(B, 5, 22, [["a", ("addr", 1, A, "")]], clen=0)               # 6 B names A's "1:A:"
+    u.add(A, 40000, 10, [["d", "x"]], clen=8)                          # 7 kind 40000 with a d tag
+    u.add(A, 5, 30, [["a", ("addr", 40000, A, "x")]], clen=0)          # 8 A names "40000:A:x" - covers nothing
+    return u.finish()
+
+
 def u_c11b():
     """Deletion requests with several targets where an earlier-listed address is already covered, and addresses
     whose d value contains the ':' separator."""
@@ -454,7 +490,7 @@ def u_exp(now):
     return u.finish()
 
 
-CURATED = dict(c16=u_c16, c11b=u_c11b, c12x=u_c12x, c09b=u_c09b, c10b=u_c10b, sz=u_sz, core=u_core, c09=u_c09, c10=u_c10, c11=u_c11, c18=u_c18, q=u_q)
+CURATED = dict(c09c=u_c09c, c10c=u_c10c, c16=u_c16, c11b=u_c11b, c12x=u_c12x, c09b=u_c09b, c10b=u_c10b, sz=u_sz, core=u_core, c09=u_c09, c10=u_c10, c11=u_c11, c18=u_c18, q=u_q)
 
 
 # ------------------------------------------------------------------------------------------------
